@@ -40,6 +40,28 @@ theorem layout_irrelevant (l₁ l₂ : L) (r₁ r₂ : List Token) (h₁ : Clean
   rw [parseValue_complete l₁ r₁ h₁ n₁, parseValue_complete l₂ r₂ h₂ n₂]
   simp [Except.toOption, hv]
 
+/-- `gin.config.parse_value` (D53): a laid-out literal followed by nothing but line ends, blank lines and comments
+    parses to exactly that literal … -/
+theorem parseSingle_complete (l : L) (rest : List Token) (hr : Clean rest) (hns : NoStr false rest)
+    (hend : (cur ((dropTriv false rest).dropWhile endSkippable)).kind = .endmarker) :
+    parseSingleValue (size l) (render l ++ rest) = .ok (val l) := by
+  have hc : Clean (dropTriv false rest) := fun t ht => hr t ((List.dropWhile_sublist _).subset ht)
+  simp only [parseSingleValue, parseValue_complete l rest hr hns,
+    skipWhile_clean endSkippable _ _ hc (Nat.le_refl _), hend, beq_self_eq_true, if_true]
+
+/-- … and anything else after it — another value, an operator, a name — is a syntax error; the first value is never
+    handed out on its own. -/
+theorem parseSingle_rejects_trailing (l : L) (rest : List Token) (hr : Clean rest) (hns : NoStr false rest)
+    (hjunk : (cur ((dropTriv false rest).dropWhile endSkippable)).kind ≠ .endmarker) :
+    ∃ m, parseSingleValue (size l) (render l ++ rest) = .error (.syntax m) := by
+  have hc : Clean (dropTriv false rest) := fun t ht => hr t ((List.dropWhile_sublist _).subset ht)
+  refine ⟨"Expected end of input.", ?_⟩
+  simp only [parseSingleValue, parseValue_complete l rest hr hns,
+    skipWhile_clean endSkippable _ _ hc (Nat.le_refl _)]
+  have : ((cur ((dropTriv false rest).dropWhile endSkippable)).kind == TKind.endmarker) = false := by
+    simpa using hjunk
+  simp [this]
+
 /-- Trailing junk: a statement whose value is followed by anything but NEWLINE / DEDENT /
     ENDMARKER is rejected with a syntax error. -/
 theorem statement_rejects_trailing (stmts : List PStmt) (ts : List Token)
